@@ -67,6 +67,9 @@ hwloc__nolibxml_import_next_attr(hwloc__xml_import_state_t state, char **namep, 
   *valuep = value = buffer+namelen+2;
   len = 0; escaped = 0;
   while (value[len+escaped] != '\"') {
+    if (value[len+escaped] == '\0')
+      /* end of buffer right after the opening quote */
+      return -1;
     if (value[len+escaped] == '&') {
       if (!strncmp(&value[1+len+escaped], "#10;", 4)) {
 	escaped += 4;
